@@ -1,13 +1,12 @@
-(* C16, page-store sub-check: the reference oracle `ps_spec` (Spec/PStoreObs.v: every observed
-   fetch returns what the cache-less reference map holds) accepts the model's own outputs on every
-   caller-level operation list that respects the discipline `ok_run`; hence "the real fileStore
-   did what the model does" (ps_model_agrees) implies "the oracle accepts what it did" (ps_spec),
-   for every capacity and every operation list.
+(* C16, page-store sub-check: the reference oracle `ps_spec` (Spec/PStoreObs.v: within the
+   discipline every fetch is answered with an object whose content is what the cache-less reference
+   map holds, every other operation with the kind of output the model produces) accepts the model's
+   own outputs on every caller-level operation list; hence "the real fileStore did what the model
+   does" (ps_model_agrees) implies "the oracle accepts what it did" (ps_spec), for every capacity,
+   every operation list and every observation list. No hypothesis on the case.
 
-   One hypothesis on the case is needed, `mods_held` (a page is modified only after a fetch or an
-   allocation of it): `href_ok` applies EVERY HModify to its reference map, whereas the model
-   (`hrun`) and the Go driver skip an HModify of a page for which the caller holds no object.
-   `oracle_rejects_model_without_mods_held` below shows the oracle rejecting the model without it. *)
+   The oracle keeps the list of pages the caller holds an object for: an HModify of another page
+   changes nothing in the model (hrun skips it), in the Go driver, and in the oracle's reference. *)
 From Coq Require Import List NArith Bool Arith Lia.
 From Mkdb Require Import Model.CaseLib Model.Lru Proofs.LruProofs Model.PStore Spec.PStoreSpec
   Proofs.PStoreProofs Spec.PStoreObs.
@@ -26,38 +25,42 @@ Proof.
 Qed.
 
 Lemma step_ok_alloc_obj s k c :
-  step_ok s (PAlloc k c) = true -> exists o c', snd (ps_step s (PAlloc k c)) = PObj o c'.
+  step_ok s (PAlloc k c) = true -> exists o, snd (ps_step s (PAlloc k c)) = PObj o c.
 Proof.
   unfold step_ok. cbn [ps_step].
   destruct (lru_step (ps_cache s) (OSet k (ps_next s) false)) as [c2 [[|] ev| |]]; cbn [snd];
     intros H; try discriminate; eauto.
 Qed.
 
-(* ---- the objects the caller holds ---- *)
-Definition holds (seen : list N) (held : amap) : Prop :=
-  forall k, In k seen -> aget k held <> None.
+Lemma modify_out s k o c : snd (ps_step s (PModify k o c)) = PUnit.
+Proof. reflexivity. Qed.
 
-Lemma holds_aset seen held k o : holds seen held -> holds (k :: seen) (aset k o held).
+Lemma flush_out s ord : snd (ps_step s (PFlush ord)) = PUnit.
+Proof. cbn [ps_step]. destruct (fold_left _ _ _) as [c f]. reflexivity. Qed.
+
+(* ---- the objects the caller holds (model: a map page -> object; oracle: the list of pages) ---- *)
+Definition holds (heldk : list N) (held : amap) : Prop :=
+  forall k, is_held k heldk = match aget k held with Some _ => true | None => false end.
+
+Lemma holds_aset heldk held k o : holds heldk held -> holds (k :: heldk) (aset k o held).
 Proof.
-  intros H k' [<-|Hin].
-  - rewrite aget_aset_same. discriminate.
-  - destruct (N.eq_dec k k') as [<-|Hne]; [rewrite aget_aset_same; discriminate|].
-    rewrite aget_aset_other by exact Hne. apply H. exact Hin.
+  intros H k'. unfold is_held. cbn [existsb]. fold (is_held k' heldk). rewrite (H k').
+  destruct (N.eqb_spec k' k) as [->|Hne].
+  - rewrite aget_aset_same. reflexivity.
+  - rewrite aget_aset_other by congruence. reflexivity.
 Qed.
 
-Lemma existsb_eqb_In k l : existsb (N.eqb k) l = true -> In k l.
-Proof.
-  intros H. apply existsb_exists in H as (x & Hin & E). apply N.eqb_eq in E. subst. exact Hin.
-Qed.
-
-(* ---- one caller-level operation that is translated to a store operation ---- *)
-Lemma hrun_some s held h op r :
+(* ---- one caller-level operation: translated to a store operation, or skipped ---- *)
+Definition pop_of (held : amap) (h : hop) : option pop :=
   match h with
   | HFetch k => Some (PFetch k)
   | HAlloc k c => Some (PAlloc k c)
   | HModify k c => match aget k held with Some o => Some (PModify k o c) | None => None end
   | HFlush ord => Some (PFlush ord)
-  end = Some op ->
+  end.
+
+Lemma hrun_some s held h op r :
+  pop_of held h = Some op ->
   let s1 := fst (ps_step s op) in
   let out := snd (ps_step s op) in
   let held1 := match h, out with
@@ -66,104 +69,125 @@ Lemma hrun_some s held h op r :
                end in
   hrun s held (h :: r) = (op :: fst (hrun s1 held1 r), out :: snd (hrun s1 held1 r)).
 Proof.
-  intros E. cbn [hrun]. rewrite E. destruct (ps_step s op) as [s1 out]. cbn [fst snd].
+  intros E. unfold pop_of in E. cbn [hrun]. rewrite E. destruct (ps_step s op) as [s1 out]. cbn [fst snd].
   destruct (hrun s1 _ r) as [ps os]. reflexivity.
 Qed.
 
-(* the oracle's reference map moves like the reference of C16 on a translated operation *)
-Definition href_step (m : amap) (h : hop) : amap :=
-  match h with HAlloc k c => aset k c m | HModify k c => aset k c m | _ => m end.
+Lemma hrun_none s held h r :
+  pop_of held h = None ->
+  hrun s held (h :: r) = (fst (hrun s held r), PUnit :: snd (hrun s held r)).
+Proof.
+  intros E. unfold pop_of in E. cbn [hrun]. rewrite E. destruct (hrun s held r) as [ps os]. reflexivity.
+Qed.
 
-Lemma href_ok_cons m h r o ro :
-  href_ok m (h :: r) (o :: ro) =
-  (match h, o with HFetch k, PObj _ c => N.eqb c (ref_get k m) | _, _ => true end) &&
-  href_ok (href_step m h) r ro.
+(* the oracle's reference map and held list after one operation *)
+Definition href_step (m : amap) (heldk : list N) (h : hop) : amap :=
+  match h with
+  | HAlloc k c => aset k c m
+  | HModify k c => if is_held k heldk then aset k c m else m
+  | _ => m
+  end.
+Definition held_step (heldk : list N) (h : hop) : list N :=
+  match h with HFetch k | HAlloc k _ => k :: heldk | _ => heldk end.
+Definition out_ok (m : amap) (h : hop) (o : pout) : bool :=
+  match h, o with
+  | HFetch k, PObj _ c => N.eqb c (ref_get k m)
+  | HAlloc _ c, PObj _ c' => N.eqb c' c
+  | HModify _ _, PUnit | HFlush _, PUnit => true
+  | _, _ => false
+  end.
+
+Lemma href_ok_cons m heldk h r o ro :
+  href_ok m heldk (h :: r) (o :: ro) =
+  out_ok m h o && href_ok (href_step m heldk h) (held_step heldk h) r ro.
 Proof. reflexivity. Qed.
 
 (* ---- the oracle accepts every output list that agrees with the model's, from any state that
    satisfies the invariant of C16 ---- *)
-Lemma href_accepts_model ops : forall s held m pend seen obs,
-  PInv s m pend -> holds seen held ->
-  mods_follow_fetch seen ops = true ->
+Lemma href_accepts_model ops : forall s held m pend heldk obs,
+  PInv s m pend -> holds heldk held ->
   ok_run s pend (fst (hrun s held ops)) = true ->
   list_eqb pout_eqb (snd (hrun s held ops)) obs = true ->
-  href_ok m ops obs = true.
+  href_ok m heldk ops obs = true.
 Proof.
-  induction ops as [|h r IH]; intros s held m pend seen obs HI Hh Hm Hok Hag.
+  induction ops as [|h r IH]; intros s held m pend heldk obs HI Hh Hok Hag.
   - cbn in Hag. destruct obs; [reflexivity | discriminate].
-  - (* every operation is translated: a modify finds its object *)
-    assert (Hop : exists op,
-      match h with
-      | HFetch k => Some (PFetch k)
-      | HAlloc k c => Some (PAlloc k c)
-      | HModify k c => match aget k held with Some o => Some (PModify k o c) | None => None end
-      | HFlush ord => Some (PFlush ord)
-      end = Some op /\ ref_step m op = href_step m h).
-    { destruct h as [k|k c|k c|ord]; cbn [href_step]; try (eexists; split; reflexivity).
-      cbn [mods_follow_fetch] in Hm. apply andb_true_iff in Hm as [Hin _].
-      apply existsb_eqb_In in Hin. specialize (Hh k Hin).
-      destruct (aget k held) as [o|]; [|congruence]. eexists; split; reflexivity. }
-    destruct Hop as (op & Eop & Eref).
-    rewrite (hrun_some s held h op r Eop) in Hok, Hag. cbn [fst snd] in Hok, Hag.
-    cbn [ok_run] in Hok. apply andb_true_iff in Hok as [Hok Hrest]. apply andb_true_iff in Hok as [Hso Hres].
-    rewrite forallb_forall in Hres.
-    pose proof (step_inv s m pend op HI Hso Hres) as H1. rewrite Eref in H1.
-    destruct obs as [|o ro]; [cbn in Hag; discriminate|].
-    cbn [list_eqb] in Hag. apply andb_true_iff in Hag as [Ho Hag].
-    rewrite href_ok_cons. apply andb_true_iff. split.
-    + (* what this step returned *)
-      destruct h as [k|k c|k c|ord]; try (destruct o; reflexivity).
-      inversion Eop; subst op. destruct o as [o' c'| |]; try reflexivity.
-      pose proof (fetch_returns_view s k) as Hf.
-      destruct (snd (ps_step s (PFetch k))) as [o1 c1| |]; cbn [pout_eqb] in Ho; try discriminate.
-      apply N.eqb_eq in Ho. subst c'. rewrite Hf. apply N.eqb_eq. apply (pi_view _ _ _ HI).
-    + (* the rest of the run *)
-      destruct h as [k|k c|k c|ord].
-      * inversion Eop; subst op. destruct (step_ok_fetch_obj s k Hso) as (o1 & c1 & E1).
-        rewrite E1 in Hrest, Hag.
-        apply (IH _ _ _ _ (k :: seen) ro H1 (holds_aset seen held k o1 Hh)); auto.
-      * inversion Eop; subst op. destruct (step_ok_alloc_obj s k c Hso) as (o1 & c1 & E1).
-        rewrite E1 in Hrest, Hag.
-        apply (IH _ _ _ _ (k :: seen) ro H1 (holds_aset seen held k o1 Hh)); auto.
-      * cbn [mods_follow_fetch] in Hm. apply andb_true_iff in Hm as [_ Hm].
-        apply (IH _ _ _ _ seen ro H1 Hh); auto.
-      * apply (IH _ _ _ _ seen ro H1 Hh); auto.
+  - destruct (pop_of held h) as [op|] eqn:Eop.
+    + (* a store operation *)
+      assert (Eref : ref_step m op = href_step m heldk h).
+      { destruct h as [k|k c|k c|ord]; cbn [pop_of] in Eop; try (inversion Eop; subst; reflexivity).
+        cbn [href_step]. rewrite (Hh k). destruct (aget k held) as [o|]; [|discriminate].
+        inversion Eop; subst. reflexivity. }
+      rewrite (hrun_some s held h op r Eop) in Hok, Hag. cbn [fst snd] in Hok, Hag.
+      cbn [ok_run] in Hok. apply andb_true_iff in Hok as [Hok Hrest]. apply andb_true_iff in Hok as [Hso Hres].
+      rewrite forallb_forall in Hres.
+      pose proof (step_inv s m pend op HI Hso Hres) as H1. rewrite Eref in H1.
+      destruct obs as [|o ro]; [cbn in Hag; discriminate|].
+      cbn [list_eqb] in Hag. apply andb_true_iff in Hag as [Ho Hag].
+      rewrite href_ok_cons. apply andb_true_iff.
+      destruct h as [k|k c|k c|ord]; cbn [pop_of] in Eop.
+      * (* fetch: an object holding the reference content *)
+        inversion Eop; subst op. destruct (step_ok_fetch_obj s k Hso) as (o1 & c1 & E1).
+        pose proof (fetch_returns_view s k) as Hf. rewrite E1 in Hf, Ho, Hrest, Hag.
+        split.
+        -- destruct o as [o' c'| |]; cbn [pout_eqb] in Ho; try discriminate.
+           apply N.eqb_eq in Ho. subst c'. cbn [out_ok]. apply N.eqb_eq. rewrite Hf. apply (pi_view _ _ _ HI).
+        -- apply (IH _ _ _ _ _ ro H1 (holds_aset heldk held k o1 Hh)); auto.
+      * (* allocation: an object holding the content given *)
+        inversion Eop; subst op. destruct (step_ok_alloc_obj s k c Hso) as (o1 & E1).
+        rewrite E1 in Ho, Hrest, Hag. split.
+        -- destruct o as [o' c'| |]; cbn [pout_eqb] in Ho; try discriminate.
+           apply N.eqb_eq in Ho. subst c'. cbn [out_ok]. apply N.eqb_refl.
+        -- apply (IH _ _ _ _ _ ro H1 (holds_aset heldk held k o1 Hh)); auto.
+      * (* modification through a held object *)
+        destruct (aget k held) as [ob|]; [|discriminate]. inversion Eop; subst op.
+        rewrite modify_out in Ho. split.
+        -- destruct o; cbn [pout_eqb] in Ho; try discriminate. reflexivity.
+        -- apply (IH _ _ _ _ _ ro H1 Hh); auto.
+      * (* flush *)
+        inversion Eop; subst op. rewrite flush_out in Ho. split.
+        -- destruct o; cbn [pout_eqb] in Ho; try discriminate. reflexivity.
+        -- apply (IH _ _ _ _ _ ro H1 Hh); auto.
+    + (* a modification of a page the caller holds no object for: skipped by model and oracle *)
+      destruct h as [k|k c|k c|ord]; cbn [pop_of] in Eop; try discriminate.
+      assert (Enh : is_held k heldk = false).
+      { rewrite (Hh k). destruct (aget k held); [discriminate | reflexivity]. }
+      rewrite (hrun_none s held (HModify k c) r) in Hok, Hag by (cbn [pop_of]; exact Eop).
+      cbn [fst snd] in Hok, Hag.
+      destruct obs as [|o ro]; [cbn in Hag; discriminate|].
+      cbn [list_eqb] in Hag. apply andb_true_iff in Hag as [Ho Hag].
+      rewrite href_ok_cons. apply andb_true_iff. split.
+      * destruct o; cbn [pout_eqb] in Ho; try discriminate. reflexivity.
+      * cbn [href_step held_step]. rewrite Enh. apply (IH _ _ _ _ _ ro HI Hh); auto.
+Qed.
+
+Lemma pout_list_refl l : list_eqb pout_eqb l l = true.
+Proof.
+  induction l as [|a l IH]; cbn; [reflexivity|]. rewrite IH, andb_true_r.
+  destruct a; cbn; auto. apply N.eqb_refl.
 Qed.
 
 (* the oracle accepts the model's own outputs *)
 Theorem oracle_accepts_model : forall cap ops,
-  mods_follow_fetch [] ops = true ->
   ps_spec (cap, ops, snd (hrun (ps_init cap) [] ops)) = true.
 Proof.
-  intros cap ops Hm. unfold ps_spec.
+  intros cap ops. unfold ps_spec.
   destruct (in_discipline (cap, ops, snd (hrun (ps_init cap) [] ops))) eqn:Ed; [|reflexivity].
   cbn [negb orb]. unfold in_discipline in Ed.
   apply (href_accepts_model ops (ps_init cap) [] [] [] []); auto.
   - apply PInv_init.
-  - intros k [].
-  - generalize (snd (hrun (ps_init cap) [] ops)). clear.
-    induction l as [|a l IH]; cbn; [reflexivity|]. rewrite IH, andb_true_r.
-    destruct a; cbn; auto. apply N.eqb_refl.
+  - intros k. reflexivity.
+  - apply pout_list_refl.
 Qed.
 
 (* "PM = [] implies PS = []" for one case *)
 Theorem agreement_implies_acceptance : forall c : pcase,
-  mods_held c = true -> ps_model_agrees c = true -> ps_spec c = true.
+  ps_model_agrees c = true -> ps_spec c = true.
 Proof.
-  intros [[cap ops] obs] Hm Hag. unfold mods_held in Hm. unfold ps_spec, ps_model_agrees in *.
+  intros [[cap ops] obs] Hag. unfold ps_spec, ps_model_agrees in *.
   destruct (in_discipline (cap, ops, obs)) eqn:Ed; [|reflexivity].
   cbn [negb orb] in *. unfold in_discipline in Ed.
   apply (href_accepts_model ops (ps_init cap) [] [] [] [] obs); auto.
   - apply PInv_init.
-  - intros k [].
+  - intros k. reflexivity.
 Qed.
-
-(* the hypothesis is needed: the caller "modifies" page 1 without holding an object for it (the
-   model and the Go driver do nothing), then fetches it: the model reads the all-zero page, the
-   oracle's reference expects 5; the run is within the discipline *)
-Example oracle_rejects_model_without_mods_held :
-  let ops := [HModify 1 5; HFetch 1] in
-  let c := (3%nat, ops, snd (hrun (ps_init 3) [] ops)) in
-  in_discipline c = true /\ ps_model_agrees c = true /\ mods_held c = false /\ ps_spec c = false /\
-  snd (hrun (ps_init 3) [] ops) = [PUnit; PObj 1 0].
-Proof. vm_compute. repeat split; reflexivity. Qed.
